@@ -440,6 +440,11 @@ def d2_structural(ctx, idx, st):
             else:
                 expect = S.ArrayVal('MathArray', list(leaves))
             rets = [p for p in paths if p.kind == 'ret']
+            unresolved = [p for p in rets if lost(p.value)]
+            if unresolved:
+                r.undecided("group '%s': handler" % gname, 'handler expression not resolved by the symbolic evaluator (value `%s`)'
+                            % S.show(unresolved[0].value), where)
+                continue
             bad = [p for p in rets if not sp.equal(p.value, expect)]
             raises = {p.value.cls for p in paths if p.kind == 'raise'} - ({'UnableToParse'} if kind == 'array' else set())
             r.check(rets and not bad and not raises, "group '%s': handler" % gname, 'returns %s' % S.show(expect),
@@ -649,10 +654,20 @@ def d3_folds(ctx, idx, st):
         ctx.extra['symbolic_paths_checked'] = ctx.extra.get('symbolic_paths_checked', 0) + total
 
 
+def lost(v):
+    """The symbolic value is an opaque placeholder: the handler expression was not resolved (not a finding)."""
+    if isinstance(v, (list, tuple)):
+        return any(lost(x) for x in v)
+    return isinstance(v, S.Opaque) and not isinstance(v, (S.StateVal, S.ArrayVal)) or \
+        (isinstance(v, S.ArrayVal) and lost(v.payload))
+
+
 def judge_level(kind, sp, p, expect, leaves):
     if p.kind == 'raise':
         return 'raises %s' % p.value.cls
     v = p.value
+    if lost(v):
+        raise AnalysisError('the handler of level %s was not resolved by the symbolic evaluator (value `%s`)' % (kind, S.show(v)))
     if kind == 'parallel':
         zero = [t for t, val in p.decided('eq') if val]
         if zero:
@@ -736,6 +751,11 @@ def d4_literals(ctx, idx, st):
                 expect = sp.mul(expect, sp.lookup('suffixes', vals[1]))
             bad = [p for p in paths if p.kind != 'ret' or not isinstance(p.value, S.Num) or not sp.equal(p.value, expect)]
             construct = 'number %s: value' % ('with suffix' if len(vals) == 2 else 'without suffix')
+            unresolved = [p for p in paths if p.kind == 'ret' and lost(p.value)]
+            if unresolved:
+                r.undecided(construct, 'handler expression not resolved by the symbolic evaluator (value `%s`)' % S.show(unresolved[0].value),
+                            idx.func(ME + '.eval').loc)
+                continue
             stale = [p for p in paths if p.kind == 'ret' and isinstance(p.value, S.StateVal)]
             if stale:
                 tgt0 = idx.func(ME + '.eval')
@@ -1111,6 +1131,11 @@ def _front_door(e, F, scen):
             return x.value
         if isinstance(x, ast.Constant) and x.value is None:
             return 'NONE'
+        if isinstance(x, ast.IfExp):
+            t_ = _front_door(x.test, F, scen)
+            if t_ is None:
+                return None
+            return text(x.body if t_ else x.orelse)
         if isinstance(x, ast.Call) and isinstance(x.func, ast.Attribute) and x.func.attr in ('strip', 'lstrip', 'rstrip') and not x.args:
             inner = text(x.func.value)
             if inner is None or inner == 'NONE':
@@ -1342,6 +1367,9 @@ def d7_case(ctx, idx, st):
             folded = [key for key in lookups if len(key[2]) > 1 and key[2][0] != 'const']
             wrong_role = [key for key in lookups if key[1] != role]
             rets = [p for p in paths if p.kind == 'ret']
+            if any(lost(p.value) for p in rets) and not folded and not wrong_role:
+                r.undecided(construct, 'handler expression not resolved by the symbolic evaluator', where)
+                continue
             if folded:
                 ops = folded[0][2][1:]
                 if set(ops) & S.CASE_METHODS:
@@ -1403,8 +1431,49 @@ def d7_case(ctx, idx, st):
                 r.violation('check_scope: %s' % it.attr, res[1], lib.loc(cs, comp), expected='%s not in %s' % (v, scope))
             else:
                 r.undecided('check_scope: %s' % it.attr, 'test `%s` not recognised' % short(gen.ifs[0]), lib.loc(cs, comp))
-        if seen < 3:
-            raise AnalysisError('check_scope: expected 3 membership filters, found %d' % seen)
+        # the same test written as set algebra: set(self.X_used).difference(scope) / set(self.X_used) - set(scope)
+        SCOPE = {'variables_used': 'variables', 'functions_used': 'functions', 'suffixes_used': 'suffixes'}
+        done = set()
+        for o in r.obligations:
+            for k in SCOPE:
+                if o.construct == 'check_scope: %s' % k:
+                    done.add(k)
+
+        def used_attr(e):
+            if isinstance(e, ast.Call) and isinstance(e.func, ast.Name) and e.func.id in ('set', 'frozenset', 'list', 'sorted') and len(e.args) == 1:
+                e = e.args[0]
+            if isinstance(e, ast.Attribute) and e.attr in SCOPE and isinstance(e.value, ast.Name) and e.value.id == cs.params[0]:
+                return e.attr
+            return None
+
+        def scope_of(e):
+            if isinstance(e, ast.Call) and isinstance(e.func, ast.Name) and e.func.id in ('set', 'frozenset', 'list') and len(e.args) == 1:
+                e = e.args[0]
+            if isinstance(e, ast.Call) and isinstance(e.func, ast.Attribute) and e.func.attr == 'keys' and not e.args:
+                e = e.func.value
+            return e.id if isinstance(e, ast.Name) else None
+        for n in walk_own(cs.node):
+            left = right = None
+            if isinstance(n, ast.Call) and isinstance(n.func, ast.Attribute) and n.func.attr == 'difference' and len(n.args) == 1:
+                left, right = n.func.value, n.args[0]
+            elif isinstance(n, ast.BinOp) and isinstance(n.op, ast.Sub):
+                left, right = n.left, n.right
+            if left is None:
+                continue
+            k = used_attr(left)
+            if k is None or k in done:
+                continue
+            sc = scope_of(right)
+            if sc is None:
+                r.undecided('check_scope: %s' % k, 'set difference against `%s` not recognised' % short(right), lib.loc(cs, n))
+            elif sc == SCOPE[k]:
+                r.ok('check_scope: %s' % k, 'set difference of the recorded names and `%s`' % sc, lib.loc(cs, n))
+            else:
+                r.violation('check_scope: %s' % k, 'the recorded %s are checked against `%s` instead of `%s`' % (k.split('_')[0], sc, SCOPE[k]),
+                            lib.loc(cs, n), expected=SCOPE[k], found=sc)
+            done.add(k)
+        for k in sorted(set(SCOPE) - done):
+            r.undecided('check_scope: %s' % k, 'no membership test of self.%s against `%s` recognised' % (k, SCOPE[k]), cs.loc)
 
 
 # ------------------------------------------------------------------------- thorough tier
@@ -1588,6 +1657,12 @@ BENIGN = [
     Benign('error-stop-inside-the-pipes-token', EXPR, "pipes = Literal('|') + Literal('|')", "pipes = Literal('|') - Literal('|')"),
     Benign('error-stop-after-lower-index-opener', EXPR, "lower_indices = Literal(\"_{\") + Optional(\"-\")", "lower_indices = Literal(\"_{\") - Optional(\"-\")"),
     Benign('cache-store-removed', EXPR, "        self.cache[cache_key] = parsed\n        return parsed", "        return parsed"),
+    Benign('actions-bound-with-functools-partial', EXPR, "            'number': lambda parse_result: self.eval_number(parse_result, suffixes),",
+           "            'number': __import__('functools').partial(self.eval_number, suffixes=suffixes),"),
+    Benign('bad-names-by-set-difference', EXPR, "bad_vars = set(var for var in self.variables_used if var not in variables)",
+           "bad_vars = set(self.variables_used).difference(variables)"),
+    Benign('evaluator-stripped-temporary', EXPR, "    if formula is None:\n        # No need to go further.\n        return float('nan'), empty_usage\n    formula = formula.strip()\n    if formula == \"\":",
+           "    stripped = None if formula is None else formula.strip()\n    formula = stripped\n    if stripped is None or stripped == \"\":"),
     Benign('evaluator-nan-exits-merged', EXPR, "    if formula is None:\n        # No need to go further.\n        return float('nan'), empty_usage\n    formula = formula.strip()\n    if formula == \"\":",
            "    if formula is not None:\n        formula = formula.strip()\n    if formula is None or formula == \"\":"),
     Benign('product-pairs-from-a-generator', EXPR, "        data = parse_result[1:]\n        while data:\n            op = data.pop(0)\n            value = data.pop(0)\n",
